@@ -302,6 +302,12 @@ class Runner:
         try:
             kids = h.node.generate_children(interval=iv)
         except Exception as e:  # noqa
+            if form != "asc":
+                # the documented interval is an ascending (start, end) pair; that range() also takes reversed and stepped ones
+                # is incidental - an implementation that REFUSES such a form is as good as one that honours it (what counts
+                # is that nothing else comes back)
+                self.ctx.extra["listing_interval_forms_refused"] = self.ctx.extra.get("listing_interval_forms_refused", 0) + 1
+                return
             return self.ev("generate_children", h, {"interval": list(iv)}, False, "list", e, mech="generate_children.raised")
         if len(kids) != len(want_idx):
             return self.ev("generate_children", h, {"interval": list(iv)}, False, len(want_idx), len(kids), mech="generate_children.count")
